@@ -131,7 +131,8 @@ def gen_exc(rng, hostile=False):
     name = rng.choice(EXC_NAMES + ([5, 2.5, 'org.\udc80x'] if hostile else []))
     text = rng.choice(HOSTILE_TEXTS if hostile else EXC_TEXTS)
     return {'cls': cls, 'name': name, 'text': text,
-            'name_attr': name is not None or rng.random() < 0.2}
+            'name_attr': name is not None or rng.random() < 0.2,
+            'name_level': 'class' if rng.random() < 0.5 else 'instance'}
 
 
 def gen_outcome(rng, sig_out, deferred_ok=True, hostile=False):
@@ -146,6 +147,10 @@ def gen_outcome(rng, sig_out, deferred_ok=True, hostile=False):
         return {'kind': 'fired', 'value': repr(gen_return(rng, sig_out))}
     if r < 0.84:
         return {'kind': 'failed', 'exc': gen_exc(rng)}
+    if r < 0.87:
+        return {'kind': 'coro-value', 'value': repr(gen_return(rng, sig_out))}      # `async def` method
+    if r < 0.89:
+        return {'kind': 'coro-raise', 'exc': gen_exc(rng)}
     if deferred_ok:
         return {'kind': 'deferred'}
     return {'kind': 'value', 'value': repr(gen_return(rng, sig_out))}
@@ -205,6 +210,10 @@ def gen_decls(rng, rich=False, props=None):
                 used.discard(name)
                 a['name'] = 'exact_%d' % fid[0]
                 a['arity'] = arities.pop()
+                if 1 <= a['arity'] <= 3 and rng.random() < 0.25:
+                    # a parameter named dbusCaller that is not the last one: does NOT ask for the caller
+                    del a['arity']
+                    a['shape'], a['wants'] = 'mid', False
             attrs.append(a)
         for _ in range(rng.randrange(0, 4)):
             m = rng.choice(MEMBERS)
@@ -324,7 +333,7 @@ def gen_call(rng, decls, builtin_bias=0.10):
     sender = rng.choice([':1.7', ':1.7', ':1.42', 'org.caller', None])
     return {'op': 'call', 'path': path, 'iface': iface, 'member': member, 'sig': sig, 'body': repr(body),
             'sender': sender, 'serial': rng.choice([1, 2, 77, 2573, 2 ** 32 - 1, rng.randrange(1, 2 ** 32)]),
-            'expectReply': rng.random() < 0.7}
+            'expectReply': rng.random() < 0.7, 'autoStart': rng.random() < 0.6, 'flag4': rng.random() < 0.3}
 
 
 # ----------------------------------------------------------------------------- building the real thing
@@ -338,7 +347,14 @@ class Recorder:
         self.current = None     # op index of the call being dispatched
 
     def sendMessage(self, m):
-        self.log.append(('sent', m))
+        # what a caller sees is the BYTES: keep the message re-parsed from its rawMessage next to
+        # the Python object (the object is only used to recognise which value went into the body)
+        from txdbus import message
+        try:
+            wire = message.parseMessage(m.rawMessage, [])
+        except Exception as e:     # noqa
+            wire = e
+        self.log.append(('sent', m, wire))
 
     def invoked(self, fid, args, caller):
         from twisted.internet import defer
@@ -353,6 +369,14 @@ class Recorder:
             return defer.succeed(oc['_value'])
         if kind == 'failed':
             return defer.fail(make_exc(oc['exc']))
+        if kind == 'coro-value':
+            async def co():
+                return oc['_value']
+            return co()
+        if kind == 'coro-raise':
+            async def co():
+                raise make_exc(oc['exc'])
+            return co()
         d = defer.Deferred()
         self.deferreds[self.current] = d
         return d
@@ -369,11 +393,19 @@ def make_exc(spec):
         base = _exc_classes[spec['cls']]
     if base is KeyError:
         # str(KeyError('x')) is repr('x'); keep the text the spec says by overriding __str__
-        cls = _exc_classes.setdefault('KeyError!', type('KeyError', (KeyError,), {'__str__': lambda s: s.args[0]}))
-        e = cls(spec['text'])
+        base = _exc_classes.setdefault('KeyError!', type('KeyError', (KeyError,), {'__str__': lambda s: s.args[0]}))
+    class_level = spec.get('name_attr') and spec.get('name_level') == 'class'
+    if class_level:
+        # the usual idiom: `class MyErr(Exception): dbusErrorName = '...'`
+        key = ('cls-level', base, repr(spec['name']))
+        if key not in _exc_classes:
+            _exc_classes[key] = type(base.__name__, (base,), {'dbusErrorName': spec['name']})
+        base = _exc_classes[key]
+    if base.__name__ == 'KeyError' or spec['text'] != '' or spec.get('with_arg'):
+        e = base(spec['text'])
     else:
-        e = base(spec['text']) if spec['text'] != '' or spec.get('with_arg') else base()
-    if spec.get('name_attr'):
+        e = base()
+    if spec.get('name_attr') and not class_level:
         e.dbusErrorName = spec['name']
     return e
 
@@ -382,10 +414,16 @@ def exc_text(spec):
     return spec['text']
 
 
-def make_func(rec, name, fid, deco, wants, arity=None):
+def make_func(rec, name, fid, deco, wants, arity=None, shape=None):
     """A recording user method.  `arity=None`: accepts any number of positional arguments;
-    otherwise exactly `arity` of them (`def f(self, a0, .., dbusCaller)` when it wants the caller)."""
-    if arity is not None:
+    otherwise exactly `arity` of them (`def f(self, a0, .., dbusCaller)` when it wants the caller).
+    `shape='mid'`: `def f(self, dbusCaller, a1=.., a2=..)` - a parameter named dbusCaller that is NOT
+    the last one: the method does not ask for the caller, its first argument lands there."""
+    from txdbus import objects
+    if shape == 'mid':
+        def f(self, dbusCaller, a1=_M, a2=_M, a3=_M):
+            return rec.invoked(fid, [dbusCaller] + [a for a in (a1, a2, a3) if a is not _M], _M)
+    elif arity is not None:
         params = ['self'] + ['a%d' % i for i in range(arity)] + (['dbusCaller'] if wants else [])
         src = 'lambda %s: _rec.invoked(_fid, [%s], %s)' % (
             ', '.join(params), ', '.join('a%d' % i for i in range(arity)), 'dbusCaller' if wants else '_M')
@@ -400,8 +438,7 @@ def make_func(rec, name, fid, deco, wants, arity=None):
     f.__qualname__ = name
     f._fid = fid
     if deco is not None:
-        f._dbusInterface = deco[0]
-        f._dbusMethod = deco[1]
+        f = objects.dbusMethod(deco[0], deco[1])(f)      # the real decorator
     return f
 
 
@@ -432,7 +469,7 @@ class Built:
             if c['ifaces'] is not None:
                 ns['dbusInterfaces'] = [self.ifaces[j] for j in c['ifaces']]
             for a in c['attrs']:
-                ns[a['name']] = make_func(self.rec, a['name'], a['fid'], a['deco'], a['wants'], a.get('arity'))
+                ns[a['name']] = make_func(self.rec, a['name'], a['fid'], a['deco'], a['wants'], a.get('arity'), a.get('shape'))
             for pn in c.get('props', []):
                 ns[pn] = objects.DBusProperty(pn, PROP_IFACE)
 
@@ -444,47 +481,68 @@ class Built:
         self.objects = []
         self.exported = {}
         for o in decls['objects']:
-            obj = self.classes[o['cls']](o['path'])
-            self.handler.exportObject(obj)
-            self.objects.append(obj)
-            self.exported[o['path']] = obj
-            if 'pval' in o:
-                try:
-                    obj.p = parse_value(o['pval'])      # the application assigns; a bad value raises here
-                except Exception:                       # ... after it has been stored
-                    pass
+            self.export(o)
         self.rec.log.clear()
 
-    # -- the export lines of the model, read off the REAL classes
+    def export(self, o):
+        """`exportObject` of a fresh object described by {'path', 'cls', ['pval']}."""
+        obj = self.classes[o['cls']](o['path'])
+        self.handler.exportObject(obj)
+        self.objects.append(obj)
+        self.exported[o['path']] = obj
+        if 'pval' in o and hasattr(type(obj), 'p'):
+            try:
+                obj.p = parse_value(o['pval'])      # the application assigns; a bad value raises here
+            except Exception:                       # ... after it has been stored
+                pass
+        return obj
+
+    def unexport(self, path):
+        """`unexportObject(path)`; a path that is not exported raises KeyError to the application."""
+        self.exported.pop(path, None)
+        try:
+            self.handler.unexportObject(path)
+        except KeyError:
+            pass
+
+    # -- the object tokens of the model, read off the REAL classes
+    @staticmethod
+    def obj_tokens(path, obj):
+        mro = [k for k in type(obj).__mro__ if k is not object]
+        toks = [str_hex(path), str(len(mro))]
+        for k in mro:
+            d = vars(k)
+            has = 'dbusInterfaces' in d
+            ifs = d['dbusInterfaces'] if has else []
+            toks += ['1' if has else '0', str(len(ifs))]
+            for i in ifs:
+                toks += [str_hex(i.name), str(len(i.methods))]
+                for mn, m in i.methods.items():
+                    toks += [str_hex(mn), str_hex(m.sigIn), str_hex(m.sigOut), str(m.nret)]
+            fns = [(n, f) for n, f in d.items() if inspect.isfunction(f)]
+            toks.append(str(len(fns)))
+            for n, f in fns:
+                code = f.__code__
+                pos = code.co_varnames[:code.co_argcount]       # positional parameter names, self included
+                fid = getattr(f, '_fid', 9000 + sum(map(ord, n)) % 997)
+                toks += [str_hex(n), str(fid)]
+                if hasattr(f, '_dbusInterface'):
+                    toks += ['1', str_hex(f._dbusInterface), str_hex(f._dbusMethod)]
+                else:
+                    toks.append('0')
+                toks += [str(len(pos))] + [str_hex(x) for x in pos]
+        return toks
+
     def export_lines(self):
-        lines = []
-        for path, obj in self.handler.exports.items():
-            mro = [k for k in type(obj).__mro__ if k is not object]
-            toks = ['export', str_hex(path), str(len(mro))]
-            for k in mro:
-                d = vars(k)
-                has = 'dbusInterfaces' in d
-                ifs = d['dbusInterfaces'] if has else []
-                toks += ['1' if has else '0', str(len(ifs))]
-                for i in ifs:
-                    toks += [str_hex(i.name), str(len(i.methods))]
-                    for mn, m in i.methods.items():
-                        toks += [str_hex(mn), str_hex(m.sigIn), str_hex(m.sigOut), str(m.nret)]
-                fns = [(n, f) for n, f in d.items() if inspect.isfunction(f)]
-                toks.append(str(len(fns)))
-                for n, f in fns:
-                    code = f.__code__
-                    pos = code.co_varnames[:code.co_argcount]
-                    wants = len(pos) >= 1 and pos[-1] == 'dbusCaller'
-                    fid = getattr(f, '_fid', 9000 + (hash(n) % 997 if False else sum(map(ord, n)) % 997))
-                    toks += [str_hex(n), str(fid)]
-                    if hasattr(f, '_dbusInterface'):
-                        toks += ['1', str_hex(f._dbusInterface), str_hex(f._dbusMethod)]
-                    else:
-                        toks.append('0')
-                    toks.append('1' if wants else '0')
-            lines.append(' '.join(toks))
-        return lines
+        return [' '.join(['export'] + self.obj_tokens(path, obj)) for path, obj in self.handler.exports.items()]
+
+
+def wants_caller(f):
+    """The statement's "asks for it", decided from the function's signature alone (harness side):
+    the last positional parameter is named dbusCaller."""
+    code = f.__code__
+    pos = code.co_varnames[:code.co_argcount]
+    return len(pos) >= 1 and pos[-1] == 'dbusCaller'
 
 
 def parse_value(s):
@@ -496,17 +554,24 @@ def parse_value(s):
 
 
 def build_call_message(op):
-    """Real bytes of the call, parsed back: the message handed to the dispatcher."""
+    """Real bytes of the call, parsed back: the message handed to the dispatcher.  All eight values
+    of the low three flag bits occur: NO_REPLY_EXPECTED (0x1) from `expectReply`, NO_AUTO_START (0x2)
+    from `autoStart`, ALLOW_INTERACTIVE_AUTHORIZATION (0x4) patched into the flags byte."""
     from txdbus import message
     body = parse_value(op['body'])
     m = message.MethodCallMessage(op['path'], op['member'], interface=op['iface'], destination=':1.1',
                                   signature=op['sig'], body=body if op['sig'] else None,
-                                  expectReply=op['expectReply'])
+                                  expectReply=op['expectReply'], autoStart=op.get('autoStart', True))
     m.serial = op['serial']
     if op['sender'] is not None:
         m.sender = op['sender']
     m._marshal(newSerial=False)
-    return message.parseMessage(m.rawMessage, [])
+    raw = bytearray(m.rawMessage)
+    if op.get('flag4'):
+        raw[2] |= 0x4
+    want = (0 if op['expectReply'] else 1) | (0 if op.get('autoStart', True) else 2) | (4 if op.get('flag4') else 0)
+    assert raw[2] == want, (raw[2], want)
+    return message.parseMessage(bytes(raw), [])
 
 
 # ----------------------------------------------------------------------------- encodability (parameter of the model)
@@ -624,32 +689,44 @@ def n_complete_types(sig):
     return n
 
 
-def spec_binding(obj, iname, member):
-    """The documented resolution order (DESIGN C10 'Binding'): `dbus_<member>` first unless it is
-    decorated for a different interface; otherwise the decorator table of the class chain
-    (first class in __mro__ order that has a function decorated for (interface, member); the
-    last such function of that class; looked up by its name on the instance)."""
-    def table():
-        for k in type(obj).__mro__:
-            if k is object:
-                continue
-            hit = None
-            for n, f in vars(k).items():
-                if inspect.isfunction(f) and getattr(f, '_dbusInterface', None) == iname \
-                        and getattr(f, '_dbusMethod', None) == member and hasattr(f, '_dbusInterface'):
-                    hit = n
-            if hit is not None:
-                return getattr(obj, hit)
-        return None
+def binding_candidates(obj, iname, member):
+    """Every function that can reasonably be called "the implementation bound to (interface, member)"
+    on this object - the statement does not say how ties are broken, so the monitor does not either:
+      * the method named `dbus_<member>` (Python attribute lookup), unless it carries a decorator
+        for a different interface;
+      * every function of the class chain decorated `@dbusMethod(iname, member)`: the function
+        itself, and what its name resolves to on the instance (an override in a derived class).
+    Returns the list of distinct functions."""
+    out = []
+
+    def add(f):
+        f = getattr(f, '__func__', f)
+        if inspect.isfunction(f) and all(f is not g for g in out):
+            out.append(f)
     m = getattr(obj, 'dbus_' + member, None)
     if m is not None and not (hasattr(m, '_dbusInterface') and m._dbusInterface != iname):
-        return m
-    return table()
+        add(m)
+    for k in type(obj).__mro__:
+        if k is object:
+            continue
+        for n, f in vars(k).items():
+            if inspect.isfunction(f) and getattr(f, '_dbusInterface', None) == iname \
+                    and getattr(f, '_dbusMethod', None) == member:
+                add(f)
+                add(getattr(obj, n))
+    return out
 
 
 def expected_of(built, op):
     """Verdict of the property statement for a call: builtin | unknown-object | unknown-method |
-    invalid-args | unbound | run(fid, wants, sig_out)."""
+    invalid-args | unbound | run(fid, wants, sig_out) | ambiguous.
+
+    `ambiguous`: the declarations do not determine the answer and the statement is silent about the
+    tie-break - the call names no interface and several interfaces have the member; the chain
+    declares the addressed interface name twice with different definitions of the member; or
+    several distinct functions are candidates for the binding.  Such calls are still compared
+    with the model (which mirrors the code's tie-breaks) but the monitor only applies the rules
+    that do not depend on the tie-break."""
     pair = (op['iface'], op['member'])
     exported = op['path'] in built.exported
     if pair == PEER:
@@ -664,28 +741,32 @@ def expected_of(built, op):
     if pair == MANAGED:
         return {'v': 'builtin'}
     obj = built.exported[op['path']]
-    found = None
-    for name, ms in spec_ifaces(built, obj):
-        if op['iface']:
-            if name == op['iface']:
-                found = (name, ms.get(op['member']))
-                break
-        elif op['member'] in ms:
-            found = (name, ms[op['member']])
-            break
-    if found is None or found[1] is None:
+    ifs = spec_ifaces(built, obj)
+    if op['iface']:
+        cands = [(name, ms.get(op['member'])) for name, ms in ifs if name == op['iface']]
+        if not cands:
+            return {'v': 'unknown-method'}
+        if any(c[1] != cands[0][1] for c in cands):
+            return {'v': 'ambiguous', 'why': 'interface declared twice', 'fids': None}
+    else:
+        cands = [(name, ms[op['member']]) for name, ms in ifs if op['member'] in ms]
+        if len(cands) > 1:
+            return {'v': 'ambiguous', 'why': 'no interface, several have the member', 'fids': None}
+    if not cands or cands[0][1] is None:
         return {'v': 'unknown-method'}
-    iname, (sig_in, sig_out) = found
+    iname, (sig_in, sig_out) = cands[0]
     if (op['sig'] or '') != sig_in:
         return {'v': 'invalid-args'}
-    m = spec_binding(obj, iname, op['member'])
-    if m is None:
+    fs = binding_candidates(obj, iname, op['member'])
+    if not fs:
         return {'v': 'unbound', 'sig_out': sig_out}
-    f = m.__func__
-    code = f.__code__
-    pos = code.co_varnames[:code.co_argcount]
-    return {'v': 'run', 'fid': getattr(f, '_fid', None), 'wants': len(pos) >= 1 and pos[-1] == 'dbusCaller',
-            'sig_out': sig_out, 'iface': iname}
+    if len(fs) > 1:
+        return {'v': 'ambiguous', 'why': 'several candidate bindings', 'fids': [getattr(f, '_fid', None) for f in fs],
+                'sig_out': sig_out}
+    f = fs[0]
+    return {'v': 'run', 'fid': getattr(f, '_fid', None), 'wants': wants_caller(f),
+            'sig_out': sig_out, 'iface': iname,
+            'style': 'decorator' if hasattr(f, '_dbusInterface') else 'dbus_name'}
 
 
 LOOKUP_ERRORS = {'unknown-object': 'org.freedesktop.DBus.Error.UnknownObject',
@@ -720,7 +801,8 @@ class Scenario:
         self.problems = []          # (key, what, op index, observed, expected)
         self.model_ok = True
 
-    # ---- canonical event text (must equal Driver/C10.lean's showEvent)
+    # ---- canonical event text (must equal Driver/C10.lean's showEvent); every field of a message is
+    # read from the message RE-PARSED from its bytes
     def canon_events(self, cr, events, ret_value):
         from txdbus import introspection, message
         out = []
@@ -731,18 +813,20 @@ class Scenario:
                 c = '-' if caller is _M else opt_hex(caller)
                 out.append('inv %d %s %s' % (fid, n, c))
                 continue
-            m = ev[1]
-            if isinstance(m, message.ErrorMessage):
-                text = m.body[0] if m.body else ''
-                out.append('err %s %d %s %s' % (str_hex(m.error_name), m.reply_serial, opt_hex(m.destination),
+            m, w = ev[1], ev[2]
+            if isinstance(w, Exception):
+                out.append('unparseable:' + type(w).__name__)
+            elif isinstance(w, message.ErrorMessage):
+                text = w.body[0] if w.body else ''
+                out.append('err %s %d %s %s' % (str_hex(w.error_name), w.reply_serial, opt_hex(w.destination),
                                                 str_hex(text) if not has_surrogate(text) else 'SURROGATE'))
-            elif isinstance(m, message.MethodReturnMessage):
-                if m.body is None and m.signature is None:
+            elif isinstance(w, message.MethodReturnMessage):
+                if w.body is None and w.signature is None:
                     b = 'empty'
-                elif m.signature == 's' and ret_value is _M and m.body == [
+                elif w.signature == 's' and ret_value is _M and w.body == [
                         introspection.generateIntrospectionXML(cr.op['path'], self.built.handler.exports)]:
                     b = 'xml'
-                elif ret_value is _M and m.signature == 'a{oa{sa{sv}}}' and m.body == [
+                elif ret_value is _M and w.signature == 'a{oa{sa{sv}}}' and w.body == [
                         self.built.handler.getManagedObjects(cr.op['path'])]:
                     b = 'managed'
                 elif ret_value is not _M and m.body is ret_value:
@@ -751,9 +835,9 @@ class Scenario:
                     b = 'vals:1000' if is_seq(ret_value) else 'vals:100'
                 else:
                     b = 'body?'
-                out.append('ret %d %s %s %s' % (m.reply_serial, opt_hex(m.destination), opt_hex(m.signature), b))
+                out.append('ret %d %s %s %s' % (w.reply_serial, opt_hex(w.destination), opt_hex(w.signature), b))
             else:
-                out.append('other:' + type(m).__name__)
+                out.append('other:' + type(w).__name__)
         return ' | '.join(out) if out else 'none'
 
     def run(self):
@@ -762,8 +846,16 @@ class Scenario:
             rec.log.clear()
             if op['op'] == 'call':
                 self.do_call(k, op)
-            else:
+            elif op['op'] == 'resolve':
                 self.do_resolve(k, op)
+            elif op['op'] == 'export':
+                obj = self.built.export(op)
+                self.model_lines.append(' '.join(['opexport'] + Built.obj_tokens(op['path'], obj)))
+                self.impl_lines.append('none')
+            else:
+                self.built.unexport(op['path'])
+                self.model_lines.append('opunexport ' + str_hex(op['path']))
+                self.impl_lines.append('none')
         self.finish()
 
     def do_call(self, k, op):
@@ -773,7 +865,7 @@ class Scenario:
         cr = CallRecord(k, op, msg, exp)
         self.calls[k] = cr
         oc = dict(op['outcome'])
-        if oc['kind'] in ('value', 'fired'):
+        if oc['kind'] in ('value', 'fired', 'coro-value'):
             oc['_value'] = parse_value(oc['value'])
         cr.outcome = oc
         rec.outcome = oc
@@ -811,10 +903,10 @@ class Scenario:
         toks = ['call', str_hex(op['path']), opt_hex(op['iface']), str_hex(op['member']), opt_hex(op['sig']),
                 opt_hex(op['sender']), str(op['serial']), '1' if op['expectReply'] else '0',
                 str(len(cr.decoded))]
-        sig_out = self.sig_out_for_model(op)
-        if oc['kind'] in ('value', 'fired'):
+        sig_out = cr.sig_out_model = self.sig_out_for_model(op)
+        if oc['kind'] in ('value', 'fired', 'coro-value'):
             otoks = value_tokens(oc['_value'], sig_out, names)
-        elif oc['kind'] in ('raise', 'failed'):
+        elif oc['kind'] in ('raise', 'failed', 'coro-raise'):
             names.append(name0_of(oc['exc']))
             otoks = ['R'] + exc_tokens(oc['exc'])
         else:
@@ -851,7 +943,7 @@ class Scenario:
         names = []
         if res['kind'] == 'value':
             res['_value'] = parse_value(res['value'])
-        sig_out = self.sig_out_for_model(cr.op) if cr is not None else ''
+        sig_out = getattr(cr, 'sig_out_model', '') if cr is not None else ''
         try:
             if res['kind'] == 'value':
                 rtoks = value_tokens(res['_value'], sig_out, names)
@@ -882,29 +974,41 @@ class Scenario:
         self.impl_lines.append(self.canon_events(cr, events, res.get('_value', _M)))
         self.check_after_resolve(cr, res, events)
 
-    # ---- the monitor (from the property statement; implementation only)
+    # ---- the monitor (from the property statement; implementation only).  Replies are judged on
+    # what a caller receives: the message re-parsed from its bytes.
     def replies_of(self, events):
         from txdbus import message
-        return [e[1] for e in events if e[0] == 'sent'
-                and isinstance(e[1], (message.MethodReturnMessage, message.ErrorMessage))]
+        return [e[2] for e in events if e[0] == 'sent'
+                and isinstance(e[2], (message.MethodReturnMessage, message.ErrorMessage))]
 
     def problem(self, key, what, cr, observed=None, expected=None):
         self.problems.append((key, what, cr.k, observed, expected))
 
+    def func_of(self, fid):
+        for k in self.built.classes:
+            for f in vars(k).values():
+                if inspect.isfunction(f) and getattr(f, '_fid', None) == fid:
+                    return f
+        return None
+
     def check_addressing(self, cr, events):
+        from txdbus import message
         for e in events:
             if e[0] != 'sent':
                 continue
-            m = e[1]
-            if m not in self.replies_of([e]):
-                self.problem('non-reply-sent', 'the dispatcher sent a %s while handling a call' % type(m).__name__, cr)
+            w = e[2]
+            if isinstance(w, Exception):
+                self.problem('reply-unparseable', 'the bytes of a message sent while handling a call do not parse: %r' % (w,), cr)
                 continue
-            if m.reply_serial != cr.serial:
-                self.problem('reply-wrong-serial', 'reply_serial %r for call serial %r' % (m.reply_serial, cr.serial), cr,
-                             m.reply_serial, cr.serial)
-            if m.destination != cr.sender:
-                self.problem('reply-wrong-destination', 'reply destination %r for call sender %r'
-                             % (m.destination, cr.sender), cr, m.destination, cr.sender)
+            if not isinstance(w, (message.MethodReturnMessage, message.ErrorMessage)):
+                self.problem('non-reply-sent', 'the dispatcher sent a %s while handling a call' % type(w).__name__, cr)
+                continue
+            if w.reply_serial != cr.serial:
+                self.problem('reply-wrong-serial', 'REPLY_SERIAL %r on the wire for call serial %r' % (w.reply_serial, cr.serial),
+                             cr, w.reply_serial, cr.serial)
+            if w.destination != cr.sender:
+                self.problem('reply-wrong-destination', 'DESTINATION %r on the wire for call sender %r'
+                             % (w.destination, cr.sender), cr, w.destination, cr.sender)
 
     def check_after_call(self, cr):
         from txdbus import message
@@ -918,24 +1022,28 @@ class Scenario:
         if len(replies) > 1:
             self.problem('duplicate-reply', '%d replies to one %s' % (len(replies), desc), cr, len(replies), '<= 1')
         # ---- who runs
-        if exp['v'] == 'run':
-            if len(invs) == 0:
+        if exp['v'] in ('run', 'ambiguous'):
+            if len(invs) == 0 and exp['v'] == 'run':
                 self.problem('implementation-not-run', 'the bound implementation did not run for ' + desc, cr,
                              self.impl_lines[-1], 'inv %s' % exp['fid'])
             elif len(invs) > 1:
                 self.problem('implementation-run-twice', 'user code ran %d times for %s' % (len(invs), desc), cr)
-            else:
+            elif len(invs) == 1:
                 _, fid, args, caller = invs[0]
-                if fid != exp['fid']:
-                    self.problem('wrong-implementation-run', 'function %r ran, the binding order gives %r for %s'
-                                 % (fid, exp['fid'], desc), cr, fid, exp['fid'])
+                allowed = [exp['fid']] if exp['v'] == 'run' else exp.get('fids')
+                if allowed is not None and fid not in allowed:
+                    self.problem('wrong-implementation-run', 'function %r ran; the candidates bound to the member are %r (%s)'
+                                 % (fid, allowed, desc), cr, fid, allowed)
                 if args != cr.decoded:
                     self.problem('wrong-arguments', 'implementation ran with %r, decoded arguments are %r'
                                  % (args, cr.decoded), cr, repr(args), repr(cr.decoded))
-                want_caller = cr.sender if exp['wants'] else _M
-                if caller is not want_caller and caller != want_caller:
-                    self.problem('wrong-caller', 'dbusCaller passed as %r, expected %r'
-                                 % (None if caller is _M else caller, None if want_caller is _M else want_caller), cr)
+                f = self.func_of(fid)
+                if f is not None:
+                    want_caller = cr.sender if wants_caller(f) else _M
+                    if caller is not want_caller and caller != want_caller:
+                        self.problem('wrong-caller', 'dbusCaller passed as %r, expected %r'
+                                     % ('<not passed>' if caller is _M else caller,
+                                        '<not passed>' if want_caller is _M else want_caller), cr)
         else:
             if invs:
                 self.problem('user-code-ran-unexpectedly', 'user code ran (%r) although the verdict is %s for %s'
@@ -948,7 +1056,7 @@ class Scenario:
                              % (LOOKUP_ERRORS[exp['v']], getattr(r, 'error_name', type(r).__name__), desc), cr,
                              getattr(r, 'error_name', type(r).__name__), LOOKUP_ERRORS[exp['v']])
         # ---- number of replies now
-        dispatched = exp['v'] == 'run' and len(invs) >= 1
+        dispatched = exp['v'] in ('run', 'ambiguous') and len(invs) >= 1
         if not cr.expect_reply:
             if dispatched and replies:
                 self.problem('reply-to-noreply-call', 'a call flagged NO_REPLY_EXPECTED was dispatched to its '
@@ -963,7 +1071,7 @@ class Scenario:
             return          # reported as dispatcher-raised-no-reply
         if len(replies) == 0:
             oc = cr.outcome
-            if dispatched and oc['kind'] in ('raise', 'failed') and bad_text_key(oc['exc']):
+            if dispatched and oc['kind'] in EXC_KINDS and bad_text_key(oc['exc']):
                 self.problem(bad_text_key(oc['exc']), 'the method raised an exception whose text is not a valid '
                              'DBus string (NUL / lone surrogate): the error reply could not be marshalled and no reply '
                              'at all was sent to a call that expects one', cr,
@@ -972,9 +1080,9 @@ class Scenario:
                 self.problem('missing-reply', 'no reply to %s (verdict %s, outcome %s)'
                              % (desc, exp['v'], cr.outcome['kind']), cr, self.impl_lines[-1], 'exactly one reply')
             return
-        if dispatched:
+        if dispatched and 'sig_out' in exp:
             oc = cr.outcome
-            if oc['kind'] in ('value', 'fired'):
+            if oc['kind'] in VALUE_KINDS:
                 self.check_value_reply(cr, replies[0], oc['_value'])
             else:
                 self.check_error_reply(cr, replies[0], oc['exc'])
@@ -1001,8 +1109,9 @@ class Scenario:
                     self.problem('missing-reply', 'the returned Deferred fired (%s) and no reply was sent' % res['kind'], cr,
                                  self.impl_lines[-1], 'exactly one reply')
                 return
-            if cr.exp['v'] != 'run':
-                return          # user code ran although it should not have: already reported
+            if 'sig_out' not in cr.exp or cr.exp['v'] not in ('run', 'ambiguous'):
+                return          # user code ran although it should not have (already reported), or the
+                                # declared signature depends on a tie-break
             if res['kind'] == 'value':
                 self.check_value_reply(cr, replies_now[0], res['_value'])
             else:
@@ -1010,30 +1119,37 @@ class Scenario:
 
     def check_value_reply(self, cr, reply, value):
         """A returned value is encoded under the declared return signature; a value that does not
-        encode becomes exactly one error reply."""
+        encode becomes exactly one error reply.  `reply` is the message as parsed from the wire;
+        the expected body is the decoding of an independent encoding (any byte order is fine)."""
         from txdbus import message, marshal
         sig_out = cr.exp['sig_out']
         body = list(value) if is_seq(value) and n_complete_types(sig_out) != 1 else [value]
         try:
-            raw = b''.join(marshal.marshal(sig_out, body)[1]) if sig_out else b''
+            if sig_out:
+                raw = b''.join(marshal.marshal(sig_out, body)[1])
+                want = marshal.unmarshal(sig_out, raw, 0, True)[1]
+            else:
+                want = None
             encodable = True
         except Exception:
             encodable = False
+        cr.result_encodable = encodable
         if encodable:
             if not isinstance(reply, message.MethodReturnMessage):
                 self.problem('encodable-result-not-returned', 'the result %r encodes under %r but the reply is %s %s'
                              % (value, sig_out, type(reply).__name__, getattr(reply, 'error_name', '')), cr)
-            elif (reply.signature or '') != sig_out or reply.rawBody != raw:
-                self.problem('result-wrongly-encoded', 'result %r under declared signature %r: reply has signature %r, '
-                             'body bytes %s' % (value, sig_out, reply.signature, reply.rawBody.hex()), cr,
-                             reply.rawBody.hex(), raw.hex())
+            elif (reply.signature or '') != sig_out or (reply.body if sig_out else None) != want:
+                self.problem('result-wrongly-encoded', 'result %r under declared signature %r: the reply on the wire has '
+                             'signature %r and decodes to %r' % (value, sig_out, reply.signature, reply.body), cr,
+                             repr(reply.body), repr(want))
         else:
             if not isinstance(reply, message.ErrorMessage):
                 self.problem('unencodable-result-not-one-error', 'the result %r does not encode under %r and the reply is not '
                              'an error' % (value, sig_out), cr)
 
     def check_error_reply(self, cr, reply, exc):
-        """dbusErrorName | org.txdbus.PythonException.<Class> | org.txdbus.InvalidErrorName, text as message."""
+        """dbusErrorName | org.txdbus.PythonException.<Class> | org.txdbus.InvalidErrorName, text as message
+        (`reply` is the message as parsed from the wire)."""
         from txdbus import message
         if not isinstance(reply, message.ErrorMessage):
             self.problem('exception-not-error-reply', 'the method raised and the reply is a %s' % type(reply).__name__, cr)
@@ -1064,6 +1180,10 @@ class Scenario:
                 self.problem('reply-before-deferred-fired', 'reply without a result', cr)
 
 
+VALUE_KINDS = ('value', 'fired', 'coro-value')
+EXC_KINDS = ('raise', 'failed', 'coro-raise')
+
+
 def bad_text_key(exc):
     """Narrow key when the text `send_error` has to send is not a valid DBus string, else None.
     The text is the exception text, preceded by the rejected name when the error name is invalid."""
@@ -1090,7 +1210,7 @@ def dbus_error_name_ok(n):
 
 
 # ----------------------------------------------------------------------------- scenario generation
-def gen_history(rng, decls, n_ops, deferred_bias=0.0, hostile=False, builtin_bias=0.10):
+def gen_history(rng, decls, n_ops, deferred_bias=0.0, hostile=False, builtin_bias=0.10, export_rate=0.08):
     ops = []
     pending = []     # (op index, sig_out guess) of calls that may have returned an unfired Deferred
     probe = Built(decls)
@@ -1104,6 +1224,20 @@ def gen_history(rng, decls, n_ops, deferred_bias=0.0, hostile=False, builtin_bia
             continue
         if ops and rng.random() < 0.04:
             ops.append({'op': 'resolve', 'k': rng.randrange(0, k + 2), 'res': gen_resolution(rng, rng.choice(SIGS))})
+            continue
+        if rng.random() < export_rate:
+            # the application exports / unexports between calls
+            if probe.exported and rng.random() < 0.55:
+                path = rng.choice(sorted(probe.exported)) if rng.random() < 0.9 else rng.choice(PATHS)
+                op = {'op': 'unexport', 'path': path}
+                probe.unexport(path)
+            else:
+                exportable = [i for i, c in enumerate(decls['classes']) if c['bases'] != ['plain']]
+                op = {'op': 'export', 'path': rng.choice(PATHS), 'cls': rng.choice(exportable)}
+                if any('props' in c for c in decls['classes']):
+                    op['pval'] = rng.choice(["'v'"] + BAD_PROP_VALUES)
+                probe.export(op)
+            ops.append(op)
             continue
         op = gen_call(rng, decls, builtin_bias)
         exp = expected_of(probe, op)
@@ -1147,19 +1281,21 @@ GRID_DECLS = {
 
 
 def grid_scenarios(rng, limit):
-    """Bounded enumeration of lookups against GRID_DECLS: path x interface x member x signature x flag."""
+    """Bounded enumeration of lookups against GRID_DECLS: path x interface x member x signature x all
+    eight values of the low flag bits."""
     paths = ['/a', '/a/b', '/c/d/e', '/c', '/zz', '/']
     ifaces = [None, 'org.a', 'org.b', 'com.c', 'org.zzz'] + [b[0] for b in BUILTINS]
     members = ['one', 'two', 'three', 'x1', 'Ping', 'nosuch', 'Introspect', 'GetManagedObjects']
     sigs = [None, '', 's', 'ss', 'i']
-    combos = [(p, i, m, s, e) for p in paths for i in ifaces for m in members for s in sigs for e in (True, False)]
+    combos = [(p, i, m, s, fl) for p in paths for i in ifaces for m in members for s in sigs for fl in range(8)]
     rng.shuffle(combos)
     combos = combos[:limit] if limit is not None else combos
     ops = []
-    for (p, i, m, s, e) in combos:
+    for (p, i, m, s, fl) in combos:
         body = gen_value(rng, s or '')
         op = {'op': 'call', 'path': p, 'iface': i, 'member': m, 'sig': s, 'body': repr(body),
-              'sender': ':1.9', 'serial': 1 + len(ops) % 50000, 'expectReply': e}
+              'sender': ':1.9', 'serial': 1 + len(ops) % 50000,
+              'expectReply': not (fl & 1), 'autoStart': not (fl & 2), 'flag4': bool(fl & 4)}
         ops.append(op)
     probe = Built(GRID_DECLS)
     out = []
@@ -1179,16 +1315,19 @@ def decl_digest(decls):
 
 
 def reduce_spec(spec, k):
-    """The history cut down to operation k (a call) and the first resolution of its Deferred."""
+    """The history cut down to operation k (a call), the export / unexport operations before it
+    and the first resolution of its Deferred."""
     ops = spec['ops']
     if ops[k]['op'] == 'resolve':
         k = ops[k]['k']
-        if not (0 <= k < len(ops)) or ops[k]['op'] != 'call':
-            return None
-    new = [ops[k]]
+    if not (0 <= k < len(ops)) or ops[k]['op'] != 'call':
+        return None
+    new = [op for op in ops[:k] if op['op'] in ('export', 'unexport')]
+    nk = len(new)
+    new.append(ops[k])
     for op in ops[k + 1:]:
         if op['op'] == 'resolve' and op['k'] == k:
-            new.append({'op': 'resolve', 'k': 0, 'res': op['res']})
+            new.append({'op': 'resolve', 'k': nk, 'res': op['res']})
             break
     return {'decls': spec['decls'], 'ops': new}
 
@@ -1204,12 +1343,41 @@ def judge(ctx, stream, sc, model_out=None):
         nontrivial = op['op'] == 'resolve' or (cr is not None and cr.exp['v'] not in ('builtin',))
         ctx.case(stream, sample={'decls': dig, 'op': op}, nontrivial=nontrivial)
         if op['op'] == 'call':
-            ctx.stat('verdict=' + cr.exp['v'])
-            ctx.stat(('outcome=' + op['outcome']['kind']) if cr.exp['v'] == 'run' else 'outcome=(not run)')
-            ctx.stat('expectReply=%s' % op['expectReply'])
+            exp = cr.exp
+            ctx.stat('verdict=' + exp['v'])
+            if exp['v'] == 'ambiguous':
+                ctx.stat('ambiguous: ' + exp['why'])
+            ran = any(e[0] == 'inv' for e in cr.events)
+            ctx.stat(('outcome=' + op['outcome']['kind']) if ran else 'outcome=(not run)')
+            ctx.stat('flags=%d' % ((0 if op['expectReply'] else 1) | (0 if op.get('autoStart', True) else 2)
+                                   | (4 if op.get('flag4') else 0)))
             ctx.stat('iface=' + ('none' if op['iface'] is None else 'given'))
+            ctx.stat('sender=' + ('none' if op['sender'] is None else 'unique' if op['sender'].startswith(':') else 'well-known'))
+            if exp['v'] == 'run':
+                ctx.stat('binding=' + exp['style'])
+                ctx.stat('asks-for-caller=%s' % exp['wants'])
+            if ran:
+                oc = op['outcome']
+                if oc['kind'] in VALUE_KINDS:
+                    v = parse_value(oc['value'])
+                    ctx.stat('result=' + ('none' if v is None else 'list' if isinstance(v, list) else
+                                          'tuple' if isinstance(v, tuple) else 'single'))
+                    if hasattr(cr, 'result_encodable'):
+                        ctx.stat('result-encodable=%s' % cr.result_encodable)
+                elif oc['kind'] in EXC_KINDS:
+                    e = oc['exc']
+                    n0 = name0_of(e)
+                    ctx.stat('error-name=' + ('class-name' if not e.get('name_attr') or e.get('name') is None else
+                                              'dbusErrorName/' + e.get('name_level', 'instance'))
+                             + ('' if dbus_error_name_ok(n0) else ' (invalid)'))
+                    ctx.stat('error-text=' + ('nul' if '\x00' in e['text'] else 'surrogate' if has_surrogate(e['text'])
+                                              else 'empty' if e['text'] == '' else 'plain'))
         else:
-            ctx.stat('op=resolve')
+            ctx.stat('op=' + op['op'])
+    if any(c.get('bases') == ['plain'] for c in spec['decls']['classes']):
+        ctx.stat('scenario: mixin (multiple inheritance)')
+    if any(a.get('shape') == 'mid' for c in spec['decls']['classes'] for a in c['attrs']):
+        ctx.stat('scenario: dbusCaller parameter not last')
     if model_out is not None:
         outs = model_out[sc.n_prefix:]
         for k, (m, i) in enumerate(zip(outs, sc.impl_lines)):
